@@ -175,7 +175,7 @@ def check(ctx):
         r.notes.append("cross-reference: %d lint sites, %d inside reachable functions, %d gaps" % (n_all, n_reach, len(gp)))
         if not gp:
             r.ok("cross-reference: %d clippy string_slice/indexing_slicing sites, %d in reachable functions, all inside functions where the PANIC rule enumerated index sites" % (n_all, n_reach))
-    r.require_floor(60, "panic-capable sites")
+    r.require_floor(45, "panic-capable sites")   # (65 on the pinned tree; a clean-up that removes a few unwraps must not trip the enumeration-collapse guard)
     rules.append(r)
 
     # ---------------------------------------------------------------- isolation
